@@ -407,6 +407,140 @@ def V1.runTask {M O} : Nat → V1 M O → Nat → List (Call M) → V1 M O × Li
         let (st', c) := st.task i
         V1.runTask fuel st' i (acc ++ c.toList)
 
+/-! ## Dropping the port
+
+`OutputPort` is not `Clone`: dropping it drops the only sender.
+
+* **v2**: the mpsc channel is closed; `recv_many` keeps returning what is queued (up to the
+  limit) and returns `0` only when the channel is closed AND empty — then the port task
+  `break`s out of its loop and its future completes (`finished`). So the task first delivers
+  everything that had been enqueued before the drop.
+* **v1**: the broadcast channel is closed (`tail.closed = true`, no slot is written) and the
+  `JoinHandle`s in `subscriptions` are dropped, which DETACHES the forwarding tasks. A
+  receiver still reads every retained entry (or observes `Lagged`) and gets
+  `Err(RecvError::Closed)` only when it is empty for this receiver (`next == tail.pos`);
+  the task then returns.
+
+Both are wrappers around the machines above: the inner state (`base`) only ever changes by
+the steps of `V2.step` / `V1.step`, so every invariant of the port carries over
+(`Lemmas/OutPortDrop.lean`). After the drop the API is unreachable: `publish` / `subscribe`
+are no-ops (the harness' re-entrant converter holds a `Weak` that no longer upgrades). -/
+
+/-- a v2 port whose handle may have been dropped -/
+structure V2c (M O : Type) where
+  base : V2 M O := {}
+  /-- the `OutputPort` (the only `MpscUnboundedSender`) has been dropped -/
+  closed : Bool := false
+  /-- `recv_many` returned 0: the port task left its loop, its future completed and
+  `subscribers` was dropped -/
+  finished : Bool := false
+
+def V2c.init (M O : Type) (allowDup : Bool) : V2c M O := { base := V2.init M O allowDup }
+
+inductive Op2c (M O : Type) where
+  | op (o : Op2 M O)
+  /-- `drop(port)` -/
+  | drop
+
+/-- one step of the port task of a port that may be closed -/
+def V2c.task {M O} (st : V2c M O) : V2c M O × Option (Call M) :=
+  if st.finished then (st, none)
+  else if st.closed && st.base.idle then ({ st with finished := true }, none)
+  else
+    let r := st.base.task
+    ({ st with base := r.1 }, r.2)
+
+def V2c.step {M O} (st : V2c M O) : Op2c M O → V2c M O
+  | .op (.publish m) => if st.closed then st else { st with base := st.base.publish m }
+  | .op (.subscribe a c) => if st.closed then st else { st with base := st.base.subscribe a c }
+  | .op (.exit a) => { st with base := st.base.step (.exit a) }
+  | .op .task => st.task.1
+  | .drop => { st with closed := true }
+
+def V2c.run {M O} (st : V2c M O) (ops : List (Op2c M O)) : V2c M O := ops.foldl V2c.step st
+
+/-- `n` consecutive steps of the port task -/
+def V2c.tasks {M O} : Nat → V2c M O → V2c M O
+  | 0, st => st
+  | n + 1, st => V2c.tasks n st.task.1
+
+/-- a v1 port whose handle may have been dropped -/
+structure V1c (M O : Type) where
+  base : V1 M O := {}
+  /-- the `OutputPort` (the only `broadcast::Sender`, and the `JoinHandle`s) has been dropped -/
+  closed : Bool := false
+  /-- forwarding tasks that returned because `recv` reported `Closed` -/
+  finished : List Nat := []
+
+def V1c.init (M O : Type) (cap : Nat) : V1c M O := { base := V1.init M O cap }
+
+inductive Op1c (M O : Type) where
+  | op (o : Op1 M O)
+  | drop
+
+/-- one iteration of forwarding task `i` of a port that may be closed -/
+def V1c.task {M O} (st : V1c M O) (i : Nat) : V1c M O × Option (Call M) :=
+  if st.finished.contains i then (st, none)
+  else match st.base.fwds[i]? with
+    | none => (st, none)
+    | some f =>
+      if st.closed && !f.ended && decide (st.base.log.length ≤ f.cursor) then
+        ({ st with finished := i :: st.finished }, none)       -- `Err(Closed) => return`
+      else
+        let r := st.base.task i
+        ({ st with base := r.1 }, r.2)
+
+def V1c.step {M O} (st : V1c M O) : Op1c M O → V1c M O
+  | .op (.publish m) => if st.closed then st else { st with base := st.base.publish m }
+  | .op (.subscribe a c) => if st.closed then st else { st with base := st.base.subscribe a c }
+  | .op (.exit a) => { st with base := st.base.step (.exit a) }
+  | .op (.task i) => (st.task i).1
+  | .drop => { st with closed := true }
+
+def V1c.run {M O} (st : V1c M O) (ops : List (Op1c M O)) : V1c M O := ops.foldl V1c.step st
+
+/-- `n` consecutive iterations of forwarding task `i` -/
+def V1c.tasks {M O} : Nat → V1c M O → Nat → V1c M O
+  | 0, st, _ => st
+  | n + 1, st, i => V1c.tasks n (st.task i).1 i
+
+/-- the forwarding task of subscription `i` has returned (subscriber dead, or channel closed) -/
+def V1c.taskDone {M O} (st : V1c M O) (i : Nat) : Bool :=
+  st.finished.contains i || (match st.base.fwds[i]? with | some f => f.ended | none => false)
+
+/-! ### one `grant` of the engine = the task runs until it parks or returns; a converter call
+may publish re-entrantly (`re`): the publication lands between two sends of the same poll -/
+
+/-- Run the v2 port task until it parks or finishes. `re c` = what the converter call `c`
+publishes on the port it is subscribed to (in the middle of the poll). -/
+def V2c.runTask {M O} (re : Call M → Option M) : Nat → V2c M O → List (Call M) → V2c M O × List (Call M)
+  | 0, st, acc => (st, acc)
+  | fuel + 1, st, acc =>
+    if st.finished then (st, acc)
+    else match st.closed, st.base.pc, st.base.queue with
+      | false, .wait _ _, [] => (st, acc)
+      | _, _, _ =>
+        let (st', c) := st.task
+        let st' := match c.bind re with
+          | some m => st'.step (.op (.publish m))
+          | none => st'
+        V2c.runTask re fuel st' (acc ++ c.toList)
+
+/-- Run forwarding task `i` until it parks or returns. -/
+def V1c.runTask {M O} (re : Call M → Option M) : Nat → V1c M O → Nat → List (Call M) → V1c M O × List (Call M)
+  | 0, st, _, acc => (st, acc)
+  | fuel + 1, st, i, acc =>
+    match st.base.fwds[i]? with
+    | none => (st, acc)
+    | some f =>
+      if st.taskDone i || (!st.closed && decide (st.base.log.length ≤ f.cursor)) then (st, acc)
+      else
+        let (st', c) := st.task i
+        let st' := match c.bind re with
+          | some m => st'.step (.op (.publish m))
+          | none => st'
+        V1c.runTask re fuel st' i (acc ++ c.toList)
+
 /-! ## The property predicate (used by the theorems and, on the implementation's own
 observations, by the driver) -/
 
